@@ -8,6 +8,7 @@ from xdsl.pattern_rewriter import (
     RewritePattern,
     op_type_rewrite_pattern,
 )
+from xdsl.transforms.canonicalization_patterns.utils import const_evaluate_operand
 
 
 def is_foldable(val: SSAValue, for_op: scf.ForOp):
@@ -39,6 +40,14 @@ class ScfForLoopRangeFolding(RewritePattern):
                 if not is_foldable(user.operands[0], op):
                     return
                 folding_const = user.operands[0]
+
+            if isinstance(user, arith.MuliOp):
+                # Scaling lb, ub and step by a factor only preserves the iteration
+                # sequence if the factor is positive: a zero factor gives a zero step
+                # and a negative one a negative step, both invalid for scf.for.
+                factor = const_evaluate_operand(folding_const)
+                if factor is None or factor <= 0:
+                    return
 
             match user:
                 case arith.AddiOp():
